@@ -17,12 +17,12 @@ CANARY_RLIMIT = 20
 EXEC_FUNCS = ['DataNode::update_size_internal', 'Node::new', 'Node::new_data_node', 'Node::size', 'Node::rotate_left', 'Node::rotate_right',
               'Node::balance', 'Node::insert_simple', 'Node::remove_min', 'Node::remove_existing_node', 'Node::unwrap_to_data',
               'Node::join', 'Node::split', 'Node::join_without_key', 'WBTreeMap::new', 'WBTreeMap::insert', 'WBTreeMap::get',
-              'WBTreeMap::contains_key', 'WBTreeMap::is_empty', 'WBTreeMap::len', 'WBTreeMap::clear', 'WBTreeMap::remove', 'Node::union', 'WBTreeMap::union', 'Node::difference', 'WBTreeMap::difference', 'WBTreeMap::get_mut', 'Iter::descend_left', 'Iter::next']
+              'WBTreeMap::contains_key', 'WBTreeMap::is_empty', 'WBTreeMap::len', 'WBTreeMap::clear', 'WBTreeMap::remove', 'Node::union', 'WBTreeMap::union', 'Node::difference', 'WBTreeMap::difference', 'WBTreeMap::get_mut', 'Iter::descend_left', 'Iter::next', 'WBTreeMap::iter']
 
 DROPPED = ['#[cfg(test)] mod tests', 'impl Debug for Node / WBTreeMap', '`use` lines (re-stated in the header)',
            'fn apply_single_mapping / apply_mappings bodies (apply_mappings is declared by an empty contract; only reachable through Node::Mapping, which wf excludes)',
            'Node::{as_data_node, wrapped_in_mappings, update_size} (dead / test-only), WBTreeMap::mapped (test-only lazy key mapping)',
-           'Iter, IterMut and their impls (unsafe raw pointers) -- bounded stand-in only']
+           'IterMut and its impls (unsafe raw pointers) and WBTreeMap::iter_mut -- bounded stand-in only']
 
 ALLOW_TRUSTED = [
     'assume_specification <std::rc::Rc<T,A>asstd::convert::AsRef<T>>::as_ref',
@@ -44,6 +44,7 @@ SAMPLES = [
     'Node::balance(node): requires children bst+bal, sizes exact; ensures same view/bounds/size, and bal(res) whenever rot_ok_t(node)',
     'Node::join(l, k, v, r): requires bst(l,lo,k), bst(r,k,hi), bal(l), bal(r); ensures bst, bal, nsz == nsz(l)+nsz(r)+1, view == view(l) U view(r) U {k->v}',
     'WBTreeMap::insert(&mut self, k, v) -> r: requires wf; ensures final.wf, final@ == old@.insert(k, v), r == old@.get(k)',
+    'Iter::next: obeys the iterator laws in EVERY state (remaining() loses its head; None only when nothing remains); WBTreeMap::iter(): remaining = the entries of the map, strictly increasing keys, each once',
     'lemma_height_log(t): requires tb(t), bal(t); ensures 4^height(t) <= 3^height(t) * (nsz(t) + 1)   (height logarithmic in size, for all trees)',
     'WBTreeMap::union(&self, other, merge) -> r: on a common key merge.ensures((&k, self@[k], other@[k]), r@[k])  -- operands in (left, right) order',
 ]
